@@ -74,7 +74,15 @@ def check_tree(C, drv, root, shape, tag, edit=None):
     nodes, _ = T.walk(root)
     before = T.canon(root)
     snaps = [np.array(n.value, copy=True) if n.value is not None else None for n in nodes]
-    val = root.position
+    try:
+        val = root.position
+    except Exception as ex:
+        rp0 = dict(how='eval', tree=T.enc_tree(root), arrays=[None if s_ is None else enc_bits(s_.reshape(-1)) for s_ in snaps], shape=list(shape))
+        if edit is not None:
+            rp0 = dict(edit['pre'], edit=dict(how=edit['how'], t=edit['t'], d=edit['d'], f=edit.get('f'), shift=edit.get('shift', 0)))
+        C.issue('evaluation-raised', 'oracle', rp0, error=type(ex).__name__ + ': ' + str(ex)[:80])
+        C.case(key=(before, 'raised'), nontrivial=True, kind=tag)
+        return
     after = T.canon(root)
     rp = dict(how='eval', tree=T.enc_tree(root), arrays=[None if s is None else enc_bits(s.reshape(-1)) for s in snaps],
               shape=list(shape))
